@@ -499,6 +499,54 @@ func (i *Inst) RunRelay(r *RlScript, tw *TraceWriter, rng *rand.Rand) error {
 			}
 			tw.Line(M{"ev": "c2b", "transport": r.Transport, "decl": len(want), "carr": len(want), "got": len(got), "prefix": pre, "end": ended, "hookbytes": fwd, "skipped": false, "burst": len(sizes),
 				"dbgSteps": steps, "dbgRead": nread, "dbgRaw": len(raw)})
+		case "burstclose":
+			// well-formed DATA packets followed by CLOSE_CHANNEL, in ONE transport write (or, with "apart", as writes
+			// sent back to back without waiting in between): the channel ends in an orderly way and everything the
+			// client sent before closing has reached the host by the time the host sees the end of its connection
+			var sizes []int
+			if v, ok := a["sizes"].([]interface{}); ok {
+				for _, x := range v {
+					if f, ok := x.(float64); ok {
+						sizes = append(sizes, int(f))
+					}
+				}
+			}
+			apart := a["apart"] == true
+			var raw, want []byte
+			var parts [][]byte
+			for _, n := range sizes {
+				pl := prng(rng.Int63(), n)
+				raw = append(raw, tsgu.Data(uint16(n), pl)...)
+				parts = append(parts, tsgu.Data(uint16(n), pl))
+				want = append(want, pl...)
+			}
+			raw = append(raw, tsgu.CloseChannel(0)...)
+			parts = append(parts, tsgu.CloseChannel(0))
+			var serr error
+			if apart {
+				for _, pt := range parts {
+					if serr = t.SendRaw(pt); serr != nil {
+						break
+					}
+				}
+			} else {
+				serr = t.SendRaw(raw)
+			}
+			if serr != nil && !i.P.Alive() {
+				return fmt.Errorf("action %d: %w", ai, serr)
+			}
+			hostEnd := bc.WaitClosed(8 * time.Second)
+			if hostEnd == "" {
+				// the host connection is still open: give late bytes the benefit of the doubt, then take what is there
+				bc.WaitRecv(hostPos+len(want), 2*time.Second)
+			}
+			all := bc.Bytes()
+			got := all[hostPos:]
+			hostPos = len(all)
+			pre := len(got) <= len(want) && bytes.Equal(got, want[:len(got)])
+			tw.Line(M{"ev": "c2b", "transport": r.Transport, "decl": len(want), "carr": len(want), "got": len(got), "prefix": pre, "end": false, "hookbytes": 0, "skipped": false, "burst": len(sizes),
+				"closing": true, "apart": apart, "hostEnd": hostEnd})
+			return nil
 		case "bstall":
 			// the host streams n bytes while the client does not read for ms milliseconds (the gateway's writes to the
 			// client block on full socket buffers) and then reads everything: the stream must be the host's, exactly
